@@ -59,7 +59,8 @@ bool CheckRegular(const Polygons& out, const Samples& smp, double guard, double 
     for (size_t i = 0; i < c.size(); ++i) {
       vec2 a = c[i], b = c[(i + 1) % c.size()];
       if (!std::isfinite(a.x) || !std::isfinite(a.y)) { o.fail(std::string("cross:nonfinite-") + tag, ""); return false; }
-      if (!seen.insert({a.x, a.y, b.x, b.y}).second) { o.fail(std::string("cross:duplicate-edge-") + tag, verif::fmt("directed edge (%.17g,%.17g)->(%.17g,%.17g) twice", a.x, a.y, b.x, b.y)); return false; }
+      // a zero-length edge (two vertices rounded onto one point, e.g. by a Transform) bounds no area: not an overlap
+      if (!(a.x == b.x && a.y == b.y) && !seen.insert({a.x, a.y, b.x, b.y}).second) { o.fail(std::string("cross:duplicate-edge-") + tag, verif::fmt("directed edge (%.17g,%.17g)->(%.17g,%.17g) twice", a.x, a.y, b.x, b.y)); return false; }
       edges.push_back({a, b});
     }
   }
